@@ -28,6 +28,8 @@ class ScriptedNormal:
         if size is None:
             return self._real(mean, std, generator=generator, **kw)
         size = tuple(size)
+        if isinstance(std, complex):   # what torch.normal itself does
+            raise TypeError("normal(): argument 'std' must be float, not complex")
         self.calls.append((std, size, generator is not None))
         v = float(self.z) if size in COUNT_SIZES else 0.0
         return torch.full(size, v, dtype=dtype or torch.get_default_dtype(), device=device)
@@ -90,6 +92,10 @@ def map_exc(e):
         return "err:bad-bounds"
     if isinstance(e, ZeroDivisionError):
         return "err:sigma-split-undefined"
+    if isinstance(e, ValueError) and "noise_multiplier" in m and "unclipped_num_std" in m:
+        return "err:sigma-split-undefined"
+    if isinstance(e, TypeError) and "not complex" in m:
+        return "err:sigma-split-undefined"
     if isinstance(e, RuntimeError) and "cannot reshape tensor of 0 elements" in m:
         return "err:empty-batch"
     if isinstance(e, AssertionError) and "Batch size is too small" in m:
@@ -142,7 +148,7 @@ class RealAda:
                 self.opt.attach_step_hook(self.acct.get_optimizer_hook_fn(sample_rate=0.01))
             if isinstance(self.opt.noise_multiplier, complex):
                 self.err = "err:sigma-split-undefined"
-        except (AssertionError, ZeroDivisionError) as e:
+        except (AssertionError, ZeroDivisionError, ValueError) as e:
             self.err = map_exc(e)
         self.pending = []   # (factors-relevant data of skipped chunks)
 
@@ -178,7 +184,7 @@ class RealAda:
             calls = sn.take()
         hist = expand_history(self.acct)
         summed = p.summed_grad.detach().reshape(-1).clone()
-        res = {"norms": [float(v) for v in norms], "gs": gs.reshape(B, -1), "summed": summed, "new_hist": hist[nh:]}
+        res = {"norms": [float(v) for v in norms], "gs": gs.reshape(B, p.numel()), "summed": summed, "new_hist": hist[nh:]}
         if st.get("skip"):
             res.update(kind="skip", calls=calls)
             return res
@@ -253,7 +259,7 @@ class RealGhost:
         grad_calls = [c for c in calls if c[1] not in COUNT_SIZES]
         count_calls = [c for c in calls if c[1] in COUNT_SIZES]
         return {
-            "kind": "rel", "norms": [float(v) for v in norms], "gs": x.reshape(B, -1).clone(),
+            "kind": "rel", "norms": [float(v) for v in norms], "gs": x.reshape(B, self.d).clone(),
             "summed": p.summed_grad.detach().reshape(-1).clone(), "grad": p.grad.detach().reshape(-1).clone(),
             "clipUsed": c_used, "gradMult": mult, "gradStd": [float(c[0]) for c in grad_calls],
             "countStd": [float(c[0]) for c in count_calls], "count_has_generator": [c[2] for c in count_calls],
